@@ -5,6 +5,7 @@ import (
 	"errors"
 	"fmt"
 	"io"
+	"net/url"
 	"sort"
 	"strings"
 
@@ -282,8 +283,14 @@ func (g *generator) walkAllOf(schema *schemaparser.Schema) (ast.Type, error) {
 
 func (g *generator) definitionNameFromRef(schema *schemaparser.Schema) string {
 	parts := strings.Split(schema.Ref.Location, "/")
+	name := parts[len(parts)-1] // Very naive
 
-	return parts[len(parts)-1] // Very naive
+	// the location is a JSON Pointer in a URI fragment: `My%20Type`, `in~1out`
+	if unescaped, err := url.PathUnescape(name); err == nil {
+		name = unescaped
+	}
+
+	return strings.NewReplacer("~1", "/", "~0", "~").Replace(name)
 }
 
 func (g *generator) walkRef(schema *schemaparser.Schema) (ast.Type, error) {
